@@ -89,8 +89,19 @@ Qed.
 
 Lemma unbe_be4 n : n < 4294967296 -> unbe (be4 n) = n.
 Proof. intros H. unfold unbe, be4. cbn [fold_left]. lia. Qed.
+Lemma unbe_app4 l a b c d :
+  unbe (l ++ [a; b; c; d]) = unbe l * 4294967296 + unbe [a; b; c; d].
+Proof. unfold unbe. rewrite fold_left_app. cbn [fold_left]. lia. Qed.
+(* in two 4-octet halves: one lia goal over all eight octets is slow to build and slower to re-check *)
 Lemma unbe_be8 n : n < 18446744073709551616 -> unbe (be8 n) = n.
-Proof. intros H. unfold unbe, be8, be4. cbn [fold_left app]. lia. Qed.
+Proof.
+  intros H. unfold be8.
+  assert (H1 : n / 4294967296 < 4294967296) by (apply N.div_lt_upper_bound; [discriminate|exact H]).
+  assert (H2 : n mod 4294967296 < 4294967296) by (apply N.mod_upper_bound; discriminate).
+  pose proof (unbe_be4 _ H1) as E1. pose proof (unbe_be4 _ H2) as E2.
+  unfold be4 at 2. rewrite unbe_app4. fold (be4 (n mod 4294967296)). rewrite E1, E2.
+  rewrite N.mul_comm. symmetry. apply N.div_mod. discriminate.
+Qed.
 
 (* the states an Enumerated can be constructed in: a known name, or a number that has no name *)
 Definition valid_eval (tb : table) (v : eval) : Prop :=
